@@ -46,8 +46,12 @@ void harness(void)
 	}
 #elif defined(UNIT_BCUT)
 	{
-		IN(size_t, in_off); IN(size_t, in_len); ssize_t r; size_t cut;
+		IN(size_t, in_off); IN(size_t, in_len); IN(size_t, in_e); ssize_t r; size_t cut, q_;
 		V_REQ(in_off <= BCAP && in_len <= BCAP);
+		/* watch one element (ghost index in_e) by identity: its first byte differs from every other element's */
+		V_REQ(in_e < NSLOT);
+		for (q_ = 0; q_ < NSLOT; q_++) V_REQ(q_ == in_e || h_b0.data[q_ * ESZ] != h_b0.data[in_e * ESZ]);
+		h_watch_on = 1; h_watch_val = h_b0.data[in_e * ESZ]; h_watch_fins = 0;
 		r = mpt_buffer_cut(b0, in_off, in_len);
 		cut = in_len ? in_len : (in_off <= oused ? oused - in_off : 0);
 		V_CHECK("cut: range outside the data refused, nothing changes", IMP(in_off > oused || in_len > oused - in_off, r < 0 && b0->_used == oused && h_finis == 0 && IMP(in_k < BCAP, h_b0.data[in_k] == ok_)));
@@ -56,6 +60,7 @@ void harness(void)
 			V_CHECK("cut: length exact", b0->_used == oused - cut && (size_t) r == b0->_used);
 			V_CHECK("cut: content before kept, content behind moved down", IMP(in_k < in_off, h_b0.data[in_k] == ok_) && IMP(in_k >= in_off + cut && in_k < oused, h_b0.data[in_k - cut] == ok_));
 			V_CHECK("cut: exactly the removed elements were finalised", h_finis == (in_typed ? (int) (cut / ESZ) : 0) && h_inits == 0);
+			V_CHECK("cut: an element is finalised exactly when it lies in the removed range (identity, not only the count)", IMP(in_typed && (in_e + 1) * ESZ <= oused, h_watch_fins == ((in_e * ESZ >= in_off && in_e * ESZ < in_off + cut) ? 1 : 0)));
 		}
 		V_COVER("typed cut keeping elements behind", in_typed && r >= 0 && in_len > 0 && in_off + in_len < oused);
 		V_COVER("truncate", r >= 0 && in_len == 0 && in_off < oused);
